@@ -142,6 +142,8 @@ fn typed(k: &str, v: i128, a: u64, b: u64, exp: &[u8]) -> Result<(), String> {
             }
             if (a, b) == (3, 3) {
                 go::<Colour>(v as u64, valid, exp, &bytes, &check, &rest)
+            } else if b == 70000 {
+                go::<Wide>(v as u64, valid, exp, &bytes, &check, &rest)
             } else {
                 go::<Shade>(v as u64, valid, exp, &bytes, &check, &rest)
             }
@@ -303,6 +305,28 @@ impl asn1rs::descriptor::enumerated::Constraint for Shade {
     }
 }
 
+/// an ENUMERATED with 70000 items
+#[derive(Debug, PartialEq)]
+struct Wide(u64);
+impl asn1rs::descriptor::common::Constraint for Wide {
+    const TAG: Tag = Tag::DEFAULT_ENUMERATED;
+}
+impl asn1rs::descriptor::enumerated::Constraint for Wide {
+    const NAME: &'static str = "Wide";
+    const VARIANT_COUNT: u64 = 70000;
+    const STD_VARIANT_COUNT: u64 = 70000;
+    fn to_choice_index(&self) -> u64 {
+        self.0
+    }
+    fn from_choice_index(index: u64) -> Option<Self> {
+        if index < 70000 {
+            Some(Wide(index))
+        } else {
+            None
+        }
+    }
+}
+
 const OPS: [&str; 12] = ["identifier", "length", "boolean", "i64/0", "i64/1", "i64/len", "i64/8", "i64/9", "u64/len", "u64/max", "tlv", "reader"];
 
 /// one operation on one input; Err(text) = panic text; Ok(consumed octets)
@@ -403,6 +427,7 @@ pub fn fault(input: &str, out: &mut Out, kv: &Kv) {
                     *cnt += 1;
                     if *cnt <= 2 {
                         out.line(&json!({"index": idx, "class": class, "why": why, "op": op, "hex": crate::zoo::hex(&bytes), "fault": crate::bytefault::describe(d)}));
+                        out.flush();
                     }
                 }
             }
